@@ -12,6 +12,16 @@ COMMON_NOTE = ("Trusted: Coq 8.16.1 kernel (vm_compute used, native_compute not 
                "runtime semantics are modelled as executable Gallina and validated by the correspondence, not verified.")
 
 CLAIMED = {
+    "C10": dict(
+        text="Coq theorems (all lengths, all strictly increasing whole-second axes, all missing patterns, thresholds >= 0): the operational models of rate_of_change_test and speed_test equal the per-point specifications (later point of a pair flagged from |dx| / elapsed whole seconds; first point GOOD resp. UNKNOWN; equality does not flag; length mismatch rejected); speed_test for EVERY geodesic function (geographiclib is an oracle). Tied by correspondence on irregular axes, exact-on-threshold rates and asymmetric tracks with distances computed by geographiclib directly. Partial: geographiclib and numpy timedelta casts are modelled, not verified.",
+        design_ref="DESIGN.md §8 C10",
+        technique="Coq proof (refinement model=spec for any geodesic oracle) + model/implementation correspondence check",
+    ),
+    "C14": dict(
+        text="Coq theorems for every geodesic function, track, missing pattern, box and range_max >= 0: the operational model of location_test equals the decision list FAIL (one coordinate missing or strictly outside the box; edges inside) > SUSPECT (hop distance from the previous full position exceeds range_max) > GOOD, MISSING iff both coordinates missing; bbox arity / shape mismatch rejected; default box read from the source is the whole globe. Tied by correspondence on edge/inside/outside positions, antimeridian longitudes, independent missing patterns and hop-exact range_max values. Partial: geographiclib is an oracle.",
+        design_ref="DESIGN.md §8 C14",
+        technique="Coq proof (refinement model=spec for any geodesic oracle, <-> characterisations) + correspondence",
+    ),
     "C05": dict(
         text="Coq theorems for an ARBITRARY test function (Section variable), all tables, configs and window layouts: the models of NumpyStream/NetcdfStream/QcConfig.run equal the specification 'each test is called on the rows with starting <= t < ending, in original order, with time/depth/position restricted likewise'; PandasStream equals it for every unique row index; XarrayStream equals it under the hypothesis the proof forces (both bounds or none, no row at `ending`) with a Coq refutation outside it (known finding F9). Tied by running all four front ends + QcConfig.run on generated programs (tables x contexts x windows x streams x probe tests registered at run time) against the front-end models, the specification and direct calls. Partial: pandas/xarray/numpy selection semantics are modelled, not verified.",
         design_ref="DESIGN.md §8 C05",
